@@ -12,7 +12,7 @@ type qeGen struct {
 	r  *vRand
 	ds *qeDataset
 	// knobs
-	pFilter, pStats, pSort, pLimit, pAuth, pBackends, pWrapped int // percent
+	pFilter, pStats, pSort, pLimit, pAuth, pBackends, pWrapped, pGrouped int // percent
 	maxDepth                                                   int
 	tables                                                     []string
 	hist                                                       map[string]int
@@ -338,7 +338,9 @@ func (g *qeGen) request() string {
 			g.filterTree(table, "Filter", r.intn(g.maxDepth+1), &lines)
 		}
 	}
-	if isStats {
+	if isStats && r.intn(100) < g.pGrouped {
+		g.groupedStats(table, &lines)
+	} else if isStats {
 		n := 1 + r.intn(4)
 		for i := 0; i < n; i++ {
 			nums := g.numericCols(table)
@@ -425,4 +427,83 @@ func qeDropSort(lines []string) []string {
 	}
 
 	return res
+}
+
+// groupedStats emits runs of counters whose leading terms coincide, the shapes the
+// stats grouping optimiser looks for (Thruk's tactical overview), with the variations
+// it must not be fooled by: StatsOr blocks, negated blocks, nested first terms,
+// custom variable terms differing in the variable name only, three-term blocks.
+func (g *qeGen) groupedStats(table string, lines *[]string) {
+	r := g.r
+	runs := 1 + r.intn(2)
+	for run := 0; run < runs; run++ {
+		var first []string
+		switch r.intn(6) {
+		case 0:
+			// a nested group as common first term
+			g.filterTree(table, "Stats", 1, &first)
+		case 1:
+			first = []string{"Stats: custom_variables = " + vPick(r, qeCVNames) + " " + vPick(r, qeCVValues)}
+		default:
+			first = []string{"Stats: " + g.leaf(table)}
+		}
+		blocks := 2 + r.intn(3)
+		for b := 0; b < blocks; b++ {
+			cur := append([]string{}, first...)
+			if len(first) == 1 && strings.HasPrefix(first[0], "Stats: custom_variables") && r.chance(1, 2) {
+				// same value, other variable name
+				parts := strings.SplitN(first[0], " ", 5)
+				if len(parts) == 5 {
+					cur = []string{"Stats: custom_variables = " + vPick(r, qeCVNames) + " " + parts[4]}
+				}
+			}
+			if r.chance(1, 6) {
+				cur = []string{"Stats: " + g.leaf(table)} // breaks the run
+			}
+			n := 1 + r.intn(2)
+			for i := 0; i < n; i++ {
+				if r.chance(1, 5) {
+					g.filterTree(table, "Stats", 1, &cur)
+				} else {
+					cur = append(cur, "Stats: "+g.leaf(table))
+				}
+			}
+			// number of stack entries pushed by cur
+			entries := g.stackEntries(cur)
+			op := "StatsAnd"
+			if r.chance(1, 5) {
+				op = "StatsOr"
+			}
+			cur = append(cur, fmt.Sprintf("%s: %d", op, entries))
+			if r.chance(1, 6) {
+				cur = append(cur, "StatsNegate:")
+			}
+			*lines = append(*lines, cur...)
+			g.count("stats:grouped-block:" + op)
+		}
+		if r.chance(1, 3) {
+			nums := g.numericCols(table)
+			if len(nums) > 0 {
+				*lines = append(*lines, fmt.Sprintf("Stats: %s %s", vPick(r, []string{"sum", "avg", "min", "max"}), vPick(r, nums)))
+			}
+		}
+	}
+}
+
+// stackEntries counts how many entries the given Stats lines leave on the stack
+func (g *qeGen) stackEntries(lines []string) int {
+	n := 0
+	for _, l := range lines {
+		switch {
+		case strings.HasPrefix(l, "StatsAnd: "), strings.HasPrefix(l, "StatsOr: "):
+			k := 0
+			fmt.Sscanf(strings.SplitN(l, ": ", 2)[1], "%d", &k)
+			n = n - k + 1
+		case strings.HasPrefix(l, "StatsNegate"):
+		default:
+			n++
+		}
+	}
+
+	return n
 }
